@@ -5,7 +5,8 @@ from .. import gram
 from ..runner import sut, expect
 
 ID = 'C14'
-RULE = ('cases: a semantic annotation record (subset of the reserved keys of the level - base graph: q,w; '
+RULE = ('[additionally: look-alike free keys, the other level\'s reserved symbol as free key, keywords spelled like verbose reserved names (reserved attribute stays a number), second read after the caller edited the first template in place] '
+        'cases: a semantic annotation record (subset of the reserved keys of the level - base graph: q,w; '
         'fragments: w,x - with numeric spellings like +1 -0.25 1e-1 .5, plus 0-2 free keys) rendered in EVERY '
         'arrangement (positional prefix of every admissible length, remaining entries by keyword in every '
         'order; exhaustive for the record) at one of three levels: base-graph node, coarse-fragment node, '
